@@ -139,6 +139,28 @@ def direct_ops():
             with jaxtyped("context"):
                 isinstance((Duck((2, 3), "float32"), RS()), PyTree[Float[typing.Any, "?a b"], "T"])
 
+        class RaisingLater:
+            """fine while the tree is being flattened (first look at `.shape`), raises when the leaf is checked in earnest"""
+            dtype = "float32"
+
+            def __init__(self):
+                self.n = 0
+
+            @property
+            def shape(self, E=E):
+                self.n += 1
+                if self.n > 2:
+                    raise E("shape, later")
+                return (2, 3)
+
+        def op_pytree_shape_late(RL=RaisingLater):
+            with jaxtyped("context"):
+                isinstance((Duck((2, 3), "float32"), RL()), PyTree[Float[typing.Any, "?a b"], "T"])
+
+        def op_pytree_unbound_symbolic():
+            with jaxtyped("context"):
+                isinstance((Duck((2, 3), "float32"), Duck((2, 3), "float32")), PyTree[Float[Duck, "rows+cols b"], "T"])
+
         def op_arrtype(Arr=Arr):
             with jaxtyped("context"):
                 isinstance(Duck((2,), "float32"), Float[Arr, "a"])
@@ -154,6 +176,7 @@ def direct_ops():
             f(Duck((2,), "float32"))
 
         for nm, f in (("array-attribute:shape", op_shape), ("array-attribute:dtype", op_dtype), ("array-attribute:shape-in-pytree-leaf", op_pytree_shape),
+                      ("array-attribute:shape-in-pytree-leaf-loop", op_pytree_shape_late), ("unbound-symbolic-axis-in-pytree-leaf-loop", op_pytree_unbound_symbolic),
                       ("array-type-instancecheck", op_arrtype), ("array-type-instancecheck:while-flattening", op_pytree_arrtype), ("typechecker", op_tc)):
             ops.append((nm, cls, f))
     return ops
@@ -283,15 +306,19 @@ def run(tier, seed, out, drv, facts):
                 out.model_diff(f"model-rest:{name}:{point}:{cls}", f"the model's own state is not at rest: {w}", {"program": prog})
     # --- call-outs outside the model
     for name, cls, f in direct_ops():
-        try:
+        held = None      # the handler KEEPS the exception object (a log record, `pytest.raises(...) as info`, `sys.last_exc`): its
+        try:             # traceback keeps every frame of the failed check alive while the probes run
             f()
             fired = False
         except BaseException as e:  # noqa: BLE001
             if isinstance(e, (SystemExit, MemoryError, KeyboardInterrupt)):
                 raise
             fired = True
+            held = e
         out.case(("direct", name, cls), fired, sample={"operation": name, "class": cls, "raised": fired})
-        evaluate_after(out, f"direct:{name}:{cls}", f"fault of class {cls} at {name}", {"operation": name, "class": cls})
+        evaluate_after(out, f"direct:{name}:{cls}", f"fault of class {cls} at {name} (the exception object still referenced)", {"operation": name, "class": cls})
+        held = None  # noqa: F841
+        evaluate_after(out, f"direct:{name}:{cls}:released", f"fault of class {cls} at {name} (the exception object released)", {"operation": name, "class": cls})
     other_thread_cases(out)
     annotation_reuse_cases(out)
     pickling_cases(out)
